@@ -83,6 +83,11 @@ class LoopMixin:
     def iter_desc_val(self, v, st):
         if v.ty.name == "Opt":
             v = self.unopt(v, st, None, "TypeError")
+        if v.ty.name == "Obj" and v.ty.args[0] == "sqlite3.Cursor":
+            rows = v.x.get("rows") or st.ghost.get("g:cursor:" + v.t.sexpr())
+            if rows is None:
+                raise Unsupported("iteration over a cursor without a result")
+            v = rows
         if v.ty.name == "List":
             if v.ty.args[0] is None:
                 return IterDesc(lambda s: z3.IntVal(0), lambda s, k: NONE_VAL)
